@@ -54,7 +54,7 @@ class Model:
         """{short_name -> uid} of the objects defined in (or, for diag-comms, referenced by) the layer"""
         objs = self.layers[lname].get("objs", {}).get(cat, {})
         if cat != "diag_comms":
-            return dict(objs)
+            return {n: (e["uid"] if isinstance(e, dict) else e) for n, e in objs.items()}
         out = {}
         for n, e in objs.items():
             if e["kind"] == "ref":
